@@ -32,9 +32,9 @@ Proof.
     cbn [vsubR]. rsc. f_equal. ring.
 Qed.
 
-Lemma vsubR_self : forall v, dotR v (vsubR v v) = dotR v (vsubR v v) /\ forall w, length w = length v -> dotR w (vsubR v v) = 0.
+Lemma dotR_vsubR_self : forall v w : list R, length w = length v -> dotR w (vsubR v v) = 0.
 Proof.
-  intros v. split; [reflexivity|]. induction v as [|a v IH]; intros w Hw.
+  induction v as [|a v IH]; intros w Hw.
   - destruct w; [reflexivity|discriminate].
   - destruct w as [|b w]; [discriminate|]. cbn [length] in Hw. injection Hw as Hw. cbn [vsubR dotR]. rewrite (IH w Hw). ring.
 Qed.
@@ -70,8 +70,7 @@ Proof.
   change ((x0 - y0) :: vsubR xs ys) with (vsubR (x0 :: xs) (y0 :: ys)) in Hspd.
   rewrite mvfrom_sub in Hspd by (cbn [length]; f_equal; assumption).
   rewrite HA in Hspd.
-  destruct (vsubR_self (@matvec_tri_from Rsc 0 0 (d :: ds) ss (y0 :: ys))) as [_ Hz].
-  rewrite Hz in Hspd; [lra|].
+  rewrite dotR_vsubR_self in Hspd; [lra|].
   rewrite length_vsubR by (cbn [length]; f_equal; exact (eq_trans Hx (eq_sym Hy))).
   rewrite length_mvfrom by (cbn [length]; f_equal; assumption). cbn [length]. f_equal. exact Hx.
 Qed.
